@@ -393,6 +393,7 @@ def e2e(ctx, variant, found):
         ctx.notes += ["MODEL-DRIFT " + d for d in drift[:5]]
     if errs > len(behs) * 0.1:
         raise kit.Inconclusive("e2e driver unhealthy: %d of %d behaviours failed to run" % (errs, len(behs)))
+    stats["foreign_connections_dropped"] = sum(r.get("foreign", 0) for r in results.values())
     ctx.cov["e2e"] = stats
     if behs and results.get(0) and not results[0].get("err"):
         ctx.sample({"e2e_policy": behs[0]["policy"], "ops": ops_of(behs[0]["steps"]),
@@ -419,6 +420,25 @@ def e2e(ctx, variant, found):
             found[sig]["detail"] = found[sig]["detail"].replace(" 200 ms after", " %d ms after" % last.get("deadlineMs", generous))
             found[sig]["detail"] = found[sig]["detail"].replace("(after 300 ms)", "(after %d ms)" % generous)
             art["observed_with_generous_deadline"] = rr["obs"]
+    # every other e2e finding is re-executed once as well: the policies are deterministic (scripted random source), so
+    # the last step must show the same thing again; otherwise it is dropped as flaky-inconclusive
+    for sig in list(found):
+        art = found[sig]["art"]
+        if art["kind"] != "c06-e2e" or sig.startswith(("removed-latch-not-closed", "backend-side-not-closed", "conn-count-")):
+            continue
+        b1 = os.path.join(ctx.work, "rerun.ndjson")
+        r1 = os.path.join(ctx.work, "rerun-results.ndjson")
+        kit.write_ndjson(b1, [{"policy": art["policy"], "nohc": art.get("nohc", False), "steps": art["steps"]}])
+        ctx.harness(["c06-e2e", "-in", b1, "-out", r1, "-naddr", "2", "-long", "0", "-shortms", "200"], timeout=300)
+        rr = kit.read_ndjson(r1)[0]
+        first, again = art["observed"][-1], (rr.get("obs") or [{}])[-1]
+        same = all(first.get(k) == again.get(k) for k in ("backend", "established", "clientSaw"))
+        if sig.startswith("least-conn") and len(rr.get("obs") or []) > 1:
+            same = same and art["observed"][-2].get("real") == rr["obs"][-2].get("real")
+        if rr.get("err") or not same:
+            ctx.notes.append("%s: not reproduced when re-executed (flaky-inconclusive, not reported): first %s, again %s"
+                             % (sig, first, rr.get("err") or again))
+            del found[sig]
     # ---- code -> spec
     accepted = None
     for v in [variant] + [x for x in ("pinned", "fixed") if x != variant]:
